@@ -95,14 +95,15 @@ ProlongedFrom(t, i, marks, repl) ==
        ELSE <<t[i]>> \o ProlongedFrom(t, i + 1, marks, repl)
 Prolonged(t, marks, repl) == ProlongedFrom(t, 1, marks, repl)
 
-\* yomigana: kind[i] \in {"K" kanji, "R" kana, "L" left bracket, "B" right bracket, "O" other}
-RECURSIVE KanaEnd(_, _)
-KanaEnd(kind, i) == IF i <= Len(kind) /\ kind[i] = "R" THEN KanaEnd(kind, i + 1) ELSE i
-\* a match starting at the kanji at i: returns the index after the right bracket, or 0
+\* yomigana: kind[i] is the set of roles character i can play, given as a sequence over {"K" kanji, "R" kana, "L" left bracket,
+\* "B" right bracket}; a character of the class ALL is kanji and kana at once, a bracket may also be listed on both sides
+Is(kind, i, r) == i >= 1 /\ i <= Len(kind) /\ \E j \in 1..Len(kind[i]) : kind[i][j] = r
+\* a match starting at the kanji at i: kanji, left bracket, 1..n kana (as many as still allow the match), right bracket;
+\* returns the index after the right bracket, or 0
 YomiMatch(kind, i, n) ==
-  IF i + 1 <= Len(kind) /\ kind[i] = "K" /\ kind[i + 1] = "L"
-  THEN LET e == KanaEnd(kind, i + 2) IN
-       IF e - (i + 2) >= 1 /\ e - (i + 2) <= n /\ e <= Len(kind) /\ kind[e] = "B" THEN e + 1 ELSE 0
+  IF Is(kind, i, "K") /\ Is(kind, i + 1, "L")
+  THEN LET ks == {k \in 1..n : (\A j \in (i + 2)..(i + 1 + k) : Is(kind, j, "R")) /\ Is(kind, i + 2 + k, "B")} IN
+       IF ks = {} THEN 0 ELSE i + 3 + (CHOOSE k \in ks : \A k2 \in ks : k2 <= k)
   ELSE 0
 RECURSIVE YomiFrom(_, _, _, _)
 YomiFrom(t, kind, i, n) ==
